@@ -105,7 +105,8 @@ _STATS = {"runs": 0, "exc": 0}
 def _workdir():
     global _WORK
     if _WORK is None or not os.path.isdir(_WORK):
-        _WORK = tempfile.mkdtemp(prefix="cnfgen-verif-c07.", dir="/dev/shm")
+        from detsim.runner import scratch_dir
+        _WORK = scratch_dir("c07.")
         import atexit
         atexit.register(shutil.rmtree, _WORK, True)
         os.mkdir(os.path.join(_WORK, "plain"))
